@@ -17,10 +17,10 @@ type genCtx struct {
 	rt *rapid.T
 	fx *fixture
 
-	namedA, namedB, namedOther bool
+	namedA, namedB, namedOther      bool
 	passRight, passWrong, passEmpty bool
-	mirrorsPending bool
-	lastAcct string // "A", "B" or ""
+	mirrorsPending                  bool
+	lastAcct                        string // "A", "B" or ""
 }
 
 func (g *genCtx) pick(label string, n int) int { return rapid.IntRange(0, n-1).Draw(g.rt, label) }
